@@ -716,3 +716,114 @@ def random_schema(seed, idx):
 
 def random_schemas(seed, count):
     return [random_schema(seed, i) for i in range(count)]
+
+
+# ----------------------------------------------------------------------------- name-clash schemas (C07)
+
+CLASH_POOL = ["types", "messages", "schema", "detail", "min_value", "max_value", "null_value", "blockLength", "numInGroup",
+              "entry", "A", "A_0", "A_1", "A_entry", "A_0_entry", "A_1_entry", "B", "B_0", "B_entry", "g", "g_0", "g_entry",
+              "types_0", "messages_0", "header", "length", "varData", "sbepp", "cc", "vv", "mm",
+              "messageHeader", "groupSizeEncoding", "varDataEncoding", "templateId", "schemaId", "version", "type_list", "tag",
+              "field", "group", "data", "composite", "msg", "msg_0"]
+# names of members of sbepp's representation base classes: reported as their own finding class (DESIGN section 7, F15)
+LIB_MEMBER_POOL = ["value", "value_type", "in_range", "has_value", "value_or", "size", "begin", "end", "strlen", "raw"]
+
+
+def clash_schema(seed, idx, pool=None, package=None):
+    """Small schema whose entity names are all drawn from a fixed pool, so that entity/member/fixed-name and
+    mangling collisions (X vs X_0 vs X_entry) occur often.  Names are unique only where SBE requires it."""
+    from . import refmodel
+    rng = C.rng_for(seed, "clash", idx)
+    pool = list(pool or CLASH_POOL)
+    pkg = package or "clash%d_%d" % (seed % 100000, idx)
+    reserved = {"messageheader", "groupsizeencoding", "vardataencoding"}
+
+    def pick(used, n=1):
+        out = []
+        for _ in range(200):
+            if len(out) == n:
+                break
+            c = rng.choice(pool)
+            if c.lower() in used:
+                continue
+            used.add(c.lower())
+            out.append(c)
+        return out
+
+    types = [std_header(), std_dimension(), std_vardata()]
+    used_types = set(reserved)
+    tnames = pick(used_types, rng.randrange(5, 10))
+    for tn in tnames:
+        k = rng.randrange(7)
+        eu = set()
+        if k == 0:
+            types.append(Type(tn, rng.choice(PRIMS), presence=rng.choice([None, "optional"])))
+        elif k == 1:
+            types.append(Type(tn, "char", length=rng.choice([2, 4])))
+        elif k == 2:
+            types.append(Enum(tn, rng.choice(["uint8", "char", "int16"]), []))
+            e = types[-1]
+            for i, vn in enumerate(pick(eu, rng.randrange(1, 4))):
+                e.values.append(EnumValue(vn, chr(65 + i) if e.encoding == "char" else str(i)))
+        elif k == 3:
+            types.append(SetT(tn, rng.choice(UNSIGNED), []))
+            st = types[-1]
+            for i, cn in enumerate(pick(eu, rng.randrange(1, 4))):
+                st.choices.append(Choice(cn, i))
+        elif k == 4:
+            types.append(Type(tn, "uint16", presence="constant", const="7"))
+        else:
+            elems = []
+            for en in pick(eu, rng.randrange(1, 5)):
+                kk = rng.randrange(6)
+                if kk == 0:
+                    elems.append(Type(en, rng.choice(PRIMS), presence=rng.choice([None, "optional"])))
+                elif kk == 1:
+                    iu = set()
+                    ee = Enum(en, "uint8", [])
+                    for i, vn in enumerate(pick(iu, rng.randrange(1, 3))):
+                        ee.values.append(EnumValue(vn, str(i)))
+                    elems.append(ee)
+                elif kk == 2:
+                    iu = set()
+                    ss = SetT(en, "uint8", [])
+                    for i, cn in enumerate(pick(iu, rng.randrange(1, 3))):
+                        ss.choices.append(Choice(cn, i))
+                    elems.append(ss)
+                elif kk == 3:
+                    iu = set()
+                    elems.append(Composite(en, [Type(x, "uint8") for x in pick(iu, rng.randrange(1, 3))]))
+                elif kk == 4 and len(types) > 3:
+                    cands = [t for t in types[3:] if t.kind != "composite"]
+                    elems.append(Ref(en, rng.choice(cands).name) if cands else Type(en, "int8"))
+                else:
+                    elems.append(Type(en, "char", length=3))
+            types.append(Composite(tn, elems))
+    ftypes = [t.name for t in types[3:]] + ["uint8", "int32", "char"]
+    nid = _ids()
+
+    def level(depth):
+        lu = set()
+        fields = [Field(n, nid(), rng.choice(ftypes)) for n in pick(lu, rng.randrange(0, 4))]
+        groups = []
+        if depth < 2:
+            for n in pick(lu, rng.choice([0, 1, 1, 2])):
+                fs, gs, ds = level(depth + 1)
+                groups.append(Group(n, nid(), fs, gs, ds))
+        data = [Data(n, nid(), "varDataEncoding") for n in pick(lu, rng.choice([0, 0, 1]))]
+        return fields, groups, data
+
+    msgs = []
+    used_msgs = set()
+    for i, mn in enumerate(pick(used_msgs, rng.randrange(2, 5))):
+        fs, gs, ds = level(0)
+        msgs.append(Message(mn, i + 1, fs, gs, ds))
+    s = Schema(pkg, id=1, version=1, types=types, messages=msgs, byte_order=rng.choice([None, "bigEndian"]),
+               description="name clash schema", name=pkg)
+    refmodel.fix_offsets(s)
+    refmodel.fit_ids_to_header(s)
+    return s
+
+
+def clash_schemas(seed, count):
+    return [clash_schema(seed, i) for i in range(count)]
